@@ -33,8 +33,9 @@ FAMILIES = {}
 family = hw.family_decorator(FAMILIES)
 
 
-RTOL = 1e-12   # transcendental models only (DESIGN 4/C02): kernels may round rows differently;
-ATOL = 1e-12   # a look-ahead changes hedge ratios at O(1e-2..1), so the slack costs nothing
+# Exact (dyadic) features and models are compared bitwise; anything that goes through a logarithm,
+# a Black-Scholes kernel or a matrix product over non-dyadic numbers within hw.tol(dtype)
+# (atol = rtol; derivation there; 1e-12 in float64 as in DESIGN 4/C02).
 
 
 # ----------------------------------------------------------------------------
@@ -124,7 +125,8 @@ def _guard(ctx, site, cls, desc, block, fn):
 def _close(a, b, exact):
     if exact:
         return ((a == b) | (a.isnan() & b.isnan()))
-    return ((a - b).abs() <= ATOL + RTOL * b.abs()) | (a.isnan() & b.isnan()) | (a == b)
+    tol = hw.tol(b.dtype)
+    return ((a - b).abs() <= tol + tol * b.abs()) | (a.isnan() & b.isnan()) | (a == b)
 
 
 # ----------------------------------------------------------------------------
@@ -209,9 +211,10 @@ def feature_tree(ctx, block):
             continue
         ctx.tick(2 * nodes, nontrivial=lookahead_nodes(full, orig, n_sym, T))
         # (1) literal adaptedness, all-steps evaluation
+        ftol = 0.0 if hw.is_exact(spec) else hw.tol(world.dtype)
         if world.full:
-            core_bad = check_prefix_measurable(full, n_sym, T)
-        pairs = prefix_pairs(full, orig, n_sym, T)
+            core_bad = check_prefix_measurable(full, n_sym, T, atol=ftol, rtol=ftol)
+        pairs = prefix_pairs(full, orig, n_sym, T, rtol=ftol, atol=ftol)
         if world.full and bool(core_bad) != bool(pairs):
             raise AssertionError("prefix checks disagree")   # harness self-check
         for (t, a, b) in pairs[:1]:
@@ -226,7 +229,7 @@ def feature_tree(ctx, block):
                           block={"world": dict(w, rows=[int(orig[a]), int(orig[b])]), "features": [spec]})
         # (2) literal adaptedness, single-step evaluation
         stacked = torch.cat(steps, dim=1)   # (N, T, F): column t = get(t)
-        pairs = prefix_pairs(stacked, orig, n_sym, T)
+        pairs = prefix_pairs(stacked, orig, n_sym, T, rtol=ftol, atol=ftol)
         for (t, a, b) in pairs[:1]:
             ctx.violation(site, "anticipates:get(t)",
                           f"{lab}.get({t}) differs between two paths that agree up to step {t} "
@@ -259,7 +262,7 @@ def feature_tree(ctx, block):
                 full2 = f2.get(None)
                 steps2 = torch.cat([f2.get(t) for t in range(T)], dim=1)
             pos = torch.searchsorted(orig, world2.orig)
-            exact = True   # features are element-wise: the same element must give the same bits
+            exact = hw.is_exact(spec)
             for mode, a2, a1 in (("get(None)", full2, full[pos]), ("get(t)", steps2, stacked[pos])):
                 ok = _close(a2, a1, exact)
                 ctx.tick(int(a2.size(0)))
@@ -313,7 +316,7 @@ def hedge_tree(ctx, block):
     ctx.add("traces_validated_against_impl", N)
     moving = (hedge[..., -2] != hedge[..., -3]).any(-1) if T >= 3 else (hedge[..., -2] != 0).any(-1)
     ctx.tick(nodes + N, nontrivial=lookahead_nodes(x, orig, n_sym, T, last=T - 2) + int(moving.sum()))
-    rtol, atol = (0.0, 0.0) if exact else (RTOL, ATOL)
+    rtol, atol = (0.0, 0.0) if exact else (hw.tol(world.dtype), hw.tol(world.dtype))
     if world.full:
         core_bad = check_prefix_measurable(x, n_sym, T, atol=atol, rtol=rtol)
     pairs = prefix_pairs(x, orig, n_sym, T, rtol=rtol, atol=atol)
